@@ -995,7 +995,9 @@ pub fn record_threads(seed: u64, tier: &str, trace: &mut Vec<Value>, rep: &mut R
         let mut first_spec: Option<RunSpec> = None;
         for &threads in thread_counts.iter() {
             for _ in 0..jitters {
-                let spec = RunSpec { arch: job.clone(), n, batch, epochs, nval: 70, tol: 3, threads, jitter: rng.next() | 1, data_seed };
+                // (one job validates on 330 samples: six evaluation chunks, so that the shape of a parallel reduction shows)
+                let nval = if name == "mlp-wide-input-adam" { 330 } else { 70 };
+                let spec = RunSpec { arch: job.clone(), n, batch, epochs, nval, tol: 3, threads, jitter: rng.next() | 1, data_seed };
                 trace.push(net_event(run, &spec));
                 run += 1;
                 rep.checks += 1;
@@ -1027,7 +1029,7 @@ pub fn record_threads(seed: u64, tier: &str, trace: &mut Vec<Value>, rep: &mut R
                             }
                         } else {
                             baseline = Some(res);
-                            first_spec = Some(RunSpec { arch: job.clone(), n, batch, epochs, nval: 70, tol: 3, threads, jitter: spec.jitter, data_seed });
+                            first_spec = Some(RunSpec { arch: job.clone(), n, batch, epochs, nval, tol: 3, threads, jitter: spec.jitter, data_seed });
                         }
                         rep.nontrivial(format!("{}:{}:{}", name, threads, spec.jitter));
                     }
@@ -1190,6 +1192,10 @@ pub fn replay_validate(case: &Value, rep: &mut Report, rng: &mut Rng) {
         "layers": [{"kind": "dense", "out": 4, "act": "tanh", "bias": true}, {"kind": "dense", "out": 4, "act": "tanh", "bias": false},
                    {"kind": "dense", "out": 3, "act": "linear", "bias": true}],
         "connect": [[0, 1], [1, 2]], "accumulation": {"skip": "add", "loop": "mean"}, "objective": {"kind": "mse"}}));
+    // a soft-max layer in the MIDDLE of the network: the output layer decides how accuracy is scored
+    archs.push(json!({"name": "mlp-hidden-softmax", "ints": false, "input": [4], "out": 3,
+        "layers": [{"kind": "dense", "out": 5, "act": "softmax", "bias": true}, {"kind": "dense", "out": 3, "act": "linear", "bias": true}],
+        "objective": {"kind": "mse"}}));
     archs.push(json!({"name": "cnn-loop", "ints": false, "input": [1, 4, 4], "out": 2,
         "layers": [{"kind": "conv", "filters": 1, "kernel": [3, 3], "stride": [1, 1], "padding": [1, 1], "act": "tanh"},
                    {"kind": "dense", "out": 2, "act": "linear", "bias": true}],
